@@ -36,6 +36,20 @@ func (d *Dump) symByName(name string) int {
 	return -1
 }
 
+// symByRef finds the terminal for a specification reference: literals by their character
+// code, named tokens by name (independent of the internal naming of literals).
+func (d *Dump) symByRef(ref string) int {
+	if strings.HasPrefix(ref, "'") && len(ref) >= 3 {
+		for _, s := range d.Symbols {
+			if !s.IsNT && s.Value == int(ref[1]) && s.ID > 1 {
+				return s.ID
+			}
+		}
+		return -1
+	}
+	return d.symByName(ref)
+}
+
 func (d *Dump) symName(id int) string {
 	for _, s := range d.Symbols {
 		if s.ID == id {
@@ -222,7 +236,7 @@ func c03One(c *Ctx, s *corpus.Spec, r YRes, dir string) {
 	h.Rel("precRule", 1)
 	for ref, lvl := range tokPrec {
 		if lvl > 0 {
-			if id := d.symByName(dumpName(ref)); id >= 0 {
+			if id := d.symByRef(ref); id >= 0 {
 				h.Fact("precTok", id)
 			}
 		}
